@@ -226,6 +226,84 @@ func enumerate(tier string, emit func(string)) {
 		emit(mkSpec("vparam", "", "~vD|", "nil", n))
 		emit(mkSpec("vparam", "", "~v,vD|", "nil", "nil", n))
 	}
+	// mixed parameter forms: every slot of the parameterised directives drawn from {omitted, literal, v, #}
+	// (character slots: {omitted, literal, v}); the arguments of the v slots come first, in slot order, then the
+	// directive's own argument, then k further arguments (which # counts) printed by trailing ~A.
+	type slot struct {
+		lit  string // literal form
+		varg string // argument supplied for the v form
+		isCh bool
+	}
+	mixed := func(fam, dirs string, slots []slot, modsets []string, mains []string, ks []int, inIter bool) {
+		forms := make([]int, len(slots))
+		var rec func(i int)
+		rec = func(i int) {
+			if i < len(slots) {
+				n := 4
+				if slots[i].isCh {
+					n = 3
+				}
+				for f := 0; f < n; f++ {
+					forms[i] = f
+					rec(i + 1)
+				}
+				return
+			}
+			var ps, vargs []string
+			hasV, hasSharp := false, false
+			for j, sl := range slots {
+				switch forms[j] {
+				case 0:
+					ps = append(ps, "")
+				case 1:
+					ps = append(ps, sl.lit)
+				case 2:
+					ps = append(ps, "v")
+					vargs = append(vargs, sl.varg)
+					hasV = true
+				case 3:
+					ps = append(ps, "#")
+					hasSharp = true
+				}
+			}
+			if !hasV && !hasSharp {
+				return // all-literal forms are the integer / print / radix families
+			}
+			p := params(ps...)
+			for _, d := range dirs {
+				for _, m := range modsets {
+					for _, main := range mains {
+						if inIter {
+							pass := append(append([]string{}, vargs...), main)
+							list := "(" + strings.Join(append(append([]string{}, pass...), pass...), " ") + ")"
+							emit(mkSpec(fam, "", "~{~"+p+m+string(d)+"|~}.~A", list, "z"))
+							continue
+						}
+						for _, k := range ks {
+							args := append(append([]string{}, vargs...), main)
+							tail := ""
+							for x := 0; x < k; x++ {
+								args = append(args, fmt.Sprintf("t%d", x))
+								tail += "~A"
+							}
+							emit(mkSpec(fam, "", "~"+p+m+string(d)+"|"+tail, args...))
+						}
+					}
+				}
+			}
+		}
+		rec(0)
+	}
+	intSlots := []slot{{"12", "12", false}, {"'.", `#\.`, true}, {"'_", `#\_`, true}, {"2", "2", false}}
+	asSlots := []slot{{"9", "9", false}, {"3", "3", false}, {"2", "2", false}, {"'.", `#\.`, true}}
+	radixSlots := append([]slot{{"8", "8", false}}, intSlots...)
+	mixed("mixed", "DBOX", intSlots, mods, []string{"1234567", "-1234567"}, []int{1, 3}, false)
+	mixed("mixed", "AS", asSlots, mods, []string{`"ab"`, "(1 2)"}, []int{1, 3}, false)
+	mixed("mixed", "R", radixSlots, mods, []string{"1234567"}, []int{2}, false)
+	mixed("mixed", "DX", intSlots, []string{":", ":@"}, []string{"1234567"}, nil, true)
+	mixed("mixed", "AS", asSlots, []string{"", "@"}, []string{`"ab"`}, nil, true)
+	mixed("mixed", "R", radixSlots, []string{":"}, []string{"1234567"}, nil, true)
+
 	// a quoted character parameter: every printable ASCII character and a few others
 	quoted := []rune{}
 	for c := rune(33); c < 127; c++ {
